@@ -15,21 +15,35 @@ Lemma observables_visible : forall s x,
   (exists r, reach_room s r x = true) ->
   visible s x.
 Proof.
-  intros s x H. unfold visible.
+  intros s x H. unfold visible, visible_core.
   destruct H as [H|[H|[H|[H|[r H]]]]].
+  - left. left. now apply memN_In.
+  - left. right; left. now apply memN_In.
+  - right. now apply memN_In.
+  - left. right; right; left. exists [], []. now apply memN_In.
+  - left. right; right; left. exists [r], []. now apply memN_In.
+Qed.
+
+Lemma observables_visible_core : forall s x,
+  listed s x = true \/ is_connected s x = true \/ reach_all s x = true \/
+  (exists r, reach_room s r x = true) ->
+  visible_core s x.
+Proof.
+  intros s x H. unfold visible_core.
+  destruct H as [H|[H|[H|[r H]]]].
   - left. now apply memN_In.
-  - right; right; left. now apply memN_In.
   - right; left. now apply memN_In.
-  - right; right; right; left. exists [], []. now apply memN_In.
-  - right; right; right; left. exists [r], []. now apply memN_In.
+  - right; right; left. exists [], []. now apply memN_In.
+  - right; right; left. exists [r], []. now apply memN_In.
 Qed.
 
 (** the observation the rig would record if the code behaved exactly like the model *)
-Definition obs_of (chain : list (N * N)) : acase :=
-  let '(calls, hv, resp, m, post) := predict chain in
+Definition obs_of_rec (chain : list (N * N)) (rec usemw : bool) : acase :=
+  let '(calls, hv, resp, m, post) := predict_rec chain rec usemw in
   let '(mk, mi, mc) := m in
   let ok := N.eqb resp 0 in
-  mkacase chain calls hv resp mk mi mc post post ok ok 0 (if ok then 1 else 0)%N 0 ok.
+  mkacase chain calls hv resp mk mi mc post post ok ok 0 (if ok then 1 else 0)%N 0 ok rec usemw.
+Definition obs_of (chain : list (N * N)) : acase := obs_of_rec chain false false.
 
 Definition all_jv : list (N * N) :=
   flat_map (fun j => map (fun v => (j, v)) [0; 1; 2; 3]%N) [0; 1; 2; 3]%N.
@@ -78,6 +92,23 @@ Lemma model_async_satisfies_oracle_small : forall chain,
 Proof.
   intros chain H. pose proof model_async_satisfies_oracle_small_b as B.
   rewrite forallb_forall in B. apply B in H. now apply andb_true_iff in H.
+Qed.
+
+(** restored sessions (with and without UseMiddlewares), chains of length <= 2 over the synchronous
+    alphabet *)
+Lemma model_rec_satisfies_oracle_small_b :
+  forallb (fun c => forallb (fun um => oracle (obs_of_rec c true um) && agree (obs_of_rec c true um))
+                            [true; false]) (chains_upto 2) = true.
+Proof. vm_compute. reflexivity. Qed.
+
+Lemma model_rec_satisfies_oracle_small : forall chain usemw,
+  In chain (chains_upto 2) ->
+  oracle (obs_of_rec chain true usemw) = true /\ agree (obs_of_rec chain true usemw) = true.
+Proof.
+  intros chain um H. pose proof model_rec_satisfies_oracle_small_b as B.
+  rewrite forallb_forall in B. apply B in H. cbn [forallb] in H.
+  apply andb_true_iff in H as [H1 H2]. apply andb_true_iff in H2 as [H2 _].
+  destruct um; [apply andb_true_iff in H1 | apply andb_true_iff in H2]; tauto.
 Qed.
 
 (** ** Event path *)
